@@ -16,6 +16,7 @@ import Driver.Collision
 import Driver.StateDb
 import Driver.Prestate
 import Driver.Bundle
+import Driver.Util
 /-! Line-protocol driver: one request per line on stdin, one reply per line on stdout.
 Stateless components are dispatched on the first token. A stateful component `X` adds a field
 `x : Driver.X.St := Driver.X.St.init` to `DState`, resets it on `begin x …` and threads it through
@@ -37,6 +38,7 @@ structure DState where
 def step (st : DState) (line : String) : DState × String :=
   match line.trimAscii.toString.splitOn " " with
   | "arith" :: r => (st, Arith.handle r)
+  | "util" :: r => (st, Driver.Util.handle r)
   | "activation" :: r => (st, Activation.handle r)
   | "begin" :: "gas" :: r => let (s, out) := Driver.Gas.begin r; ({ st with gas := s }, out)
   | "gas" :: r => let (s, out) := Driver.Gas.handle st.gas r; ({ st with gas := s }, out)
